@@ -98,8 +98,10 @@ def run_path(interp: Interp, fi, contract):
         n = Roots(roots, ctx.trace[n_pre_events:], interp)
         matched = [rc for rc in contract.raises if issubclass(exc.cls, rc.exc)]
         if not matched:
+            # absence of internal errors is property C10's subject (for functions that serve C10 at all)
+            sprops = ("C10",) if "C10" in contract.all_props() else contract.props
             ctx.oblige(f"{fq}::safety::no-{exc.cls.__name__}@{exc.origin}", False, kind="safety", line=exc.line,
-                       props=contract.props, info=f"path raises undeclared {exc.cls.__name__} at line {exc.line}")
+                       props=sprops, info=f"path raises undeclared {exc.cls.__name__} at line {exc.line}")
         else:
             # the exception must be allowed by at least one clause; each allowing clause's post must hold
             whens = [(rc.when(o) if rc.when is not None else True) for rc in matched]
